@@ -8,6 +8,7 @@ From Servitor.Facts Require Import TermFacts.
    is back in the neutral state after every cell *)
 From Servitor Require Import Mime Pub.
 From Servitor.Facts Require Import HtmlFacts MarkupFacts PubFacts.
+From Servitor.Facts Require Import HtmlFacts FrameFacts.
 
 Theorem display_wf : forall cs : list cell, wf_cells cs ->
   display (collapse cs) = (map (fun c => (letter c, cell_attrs c)) cs, []).
@@ -135,3 +136,14 @@ Theorem item_safe_neutral :
   forall t : text, good t -> safe_b t = true /\ neutral_b t = true.
 Proof. exact item_safe_neutral_fact. Qed.
 Print Assumptions item_safe_neutral.
+
+(* whole frames are good, hence neutral at every line break (centring cuts at line boundaries, the status line replaces a whole line) *)
+Theorem view_good :
+  forall (I C : Type) (preload : Z) (col : Style.colors)
+  (full_text preview_text : I -> Z -> text) (s : Ui.ui I C) (t : text),
+  StyleFacts.colors_ok col ->
+  (forall (i : I) (w : Z), good (full_text i w)) ->
+  (forall (i : I) (w : Z), good (preview_text i w)) ->
+  Ui.view I C preload col full_text preview_text s = Ok t -> good t.
+Proof. exact view_good_fact. Qed.
+Print Assumptions view_good.
